@@ -566,6 +566,12 @@ func (in *Interp) formatOne(c *frame, verb byte, flags string, arg Value, lossy 
 					if p, isPtr := ifc.v.(*Value); isPtr && p == nil {
 						return str("<nil>")
 					}
+					if mname == "String" && !isConcrete(ifc.v) {
+						// do not interpret a Stringer over symbolic data (digit
+						// loops fork per value); formatting is not the subject
+						*lossy = true
+						return str("?")
+					}
 					var res Value
 					func() {
 						defer func() {
